@@ -132,7 +132,7 @@ macro_rules! neg_traits {
             #[endpoint(method = POST, path = "/v/body", accept = Neg<$k, false>)]
             fn body(&self, #[auth(cookie_name = "sess")] auth: &BearerToken, #[body] b: &Simple) -> Result<Simple, conjure_error::Error>;
             #[endpoint(method = GET, path = "/v/dblRet", accept = Neg<$k, false>)]
-            fn dbl_ret(&self, #[query(name = "the-x")] x: &str) -> Result<Doubles, conjure_error::Error>;
+            fn dbl_ret(&self, #[query(name = "the-x")] x: &str, #[query(name = "w+k&=%", encoder = conjure_http::client::DisplaySeqEncoder)] weird: Option<&str>) -> Result<Doubles, conjure_error::Error>;
             #[endpoint(method = GET, path = "/v/listAliasRet", accept = Neg<$k, true>)]
             fn list_alias_ret(&self, #[query(name = "n")] n: i32) -> Result<ListAlias, conjure_error::Error>;
             #[endpoint(method = GET, path = "/v/optAliasRet", accept = Neg<$k, true>)]
@@ -149,7 +149,7 @@ macro_rules! neg_traits {
             #[endpoint(method = POST, path = "/v/body", accept = Neg<$k, false>)]
             async fn body(&self, #[auth(cookie_name = "sess")] auth: &BearerToken, #[body] b: &Simple) -> Result<Simple, conjure_error::Error>;
             #[endpoint(method = GET, path = "/v/dblRet", accept = Neg<$k, false>)]
-            async fn dbl_ret(&self, #[query(name = "the-x")] x: &str) -> Result<Doubles, conjure_error::Error>;
+            async fn dbl_ret(&self, #[query(name = "the-x")] x: &str, #[query(name = "w+k&=%", encoder = conjure_http::client::DisplaySeqEncoder)] weird: Option<&str>) -> Result<Doubles, conjure_error::Error>;
             #[endpoint(method = GET, path = "/v/listAliasRet", accept = Neg<$k, true>)]
             async fn list_alias_ret(&self, #[query(name = "n")] n: i32) -> Result<ListAlias, conjure_error::Error>;
             #[endpoint(method = GET, path = "/v/optAliasRet", accept = Neg<$k, true>)]
@@ -547,6 +547,16 @@ pub fn cases(seed: u64, tier: Tier) -> Cases {
                 let out = call!(fl, c, binary(m, SliceBody(bytes.clone())), |v| hex(&drain(v)));
                 run.check(fl, "binary", Texts(vec![vec![plain(&m)], vec![]]), ("octet", 0), "octet", bytes.is_empty(), &c, out, log.clone(), hex(&bytes), false);
             });
+            // the library's own body type for `binary` arguments, a byte slice, over a transport that takes a few
+            // bytes per write
+            {
+                let c = LoopClient { chunk: 3, ..Default::default() };
+                *c.handler.ret.lock().unwrap() = r.clone();
+                let step = 1 + rng.below(9);
+                let dc = crate::loopback::DribbleClient(c.clone(), step);
+                let out = guarded(|| VerifServiceClient::new(dc.clone()).binary(m, &bytes[..]).map(|v| hex(&drain(v))).map_err(|e| format!("{:?}", e.cause().to_string())));
+                run.check("sync", "binary", Texts(vec![vec![plain(&m)], vec![]]), ("octet", 0), "octet", bytes.len() > step, &c, out, log.clone(), hex(&bytes), false);
+            }
         }
         // optBinary: optional streaming response
         {
@@ -608,15 +618,19 @@ pub fn cases(seed: u64, tier: Tier) -> Cases {
                 run.check(fl, "mapAliasRet", Texts(vec![vec![plain(&k)]]), ("none", 0), "json", r.dmap.is_empty(), &c, out, log.clone(), format!("{:?}", MapAlias(r.dmap.clone())), false);
             });
             let x = gen_f64(&mut rng);
-            let log = format!("dblRet(x={:?})", x.to_bits());
+            let weird = if rng.chance(2, 3) { Some(gen_str(&mut rng)) } else { None };
+            // the generated client writes a query key as the definition spells it (keys of a definition are plain
+            // words), the macro client percent-encodes it: only the macro client is given the reserved-character key
+            let log = format!("dblRet(x={:?}, weird=None)", x.to_bits());
             let want: Doubles = conjure_serde::json::client_from_str(&r.doubles_json).unwrap();
             both!(run, rng, r, |c, fl| {
-                let out = call!(fl, c, dbl_ret(x), |v: Doubles| format!("{:?}", v));
-                run.check(fl, "dblRet", Texts(vec![vec![plain(&x)]]), ("none", 0), "json", !x.is_finite() || x == 0.0, &c, out, log.clone(), format!("{:?}", want), false);
+                let out = call!(fl, c, dbl_ret(x, None), |v: Doubles| format!("{:?}", v));
+                run.check(fl, "dblRet", Texts(vec![vec![plain(&x)], vec![]]), ("none", 0), "json", !x.is_finite() || x == 0.0, &c, out, log.clone(), format!("{:?}", want), false);
             });
             // the same endpoints through `#[conjure_client]` clients that make the server negotiate Smile or JSON
             let xt = String::from_utf8(plain(&x)).unwrap();
-            neg_call!(run, rng, r, "dblRet", false, false, log, format!("{:?}", want), dbl_ret(&xt), |v: Doubles| format!("{:?}", v));
+            let log = format!("dblRet(x={:?}, weird={:?})", x.to_bits(), weird);
+            neg_call!(run, rng, r, "dblRet", false, false, log, format!("{:?}", want), dbl_ret(&xt, weird.as_deref()), |v: Doubles| format!("{:?}", v));
             let sb = gen_i32(&mut rng);
             neg_call!(run, rng, r, "safeBody", false, false, format!("safeBody(safeBodyArg={:?})", sb), format!("{:?}", sb), safe_body(sb), |v: i32| format!("{:?}", v));
             let (auth, b) = (gen_token(&mut rng), gen_simple(&mut rng));
@@ -630,5 +644,8 @@ pub fn cases(seed: u64, tier: Tier) -> Cases {
     }
     drop(run);
     crate::ops::emit::add(&mut cs, &mut rng, tier);
+    // the requests `#[conjure_client]` derives from a spread of templates (a request without any path segment is C07's
+    // finding and left to it)
+    crate::ops::c07::macro_template_cases(&mut cs, &mut rng, tier, false);
     cs
 }
